@@ -5,6 +5,7 @@ from __future__ import annotations
 import random
 
 from . import svc as S, cmdset, dimselib as D
+from . import dsref
 from .common import Machinery
 
 pydicom = D.pydicom
@@ -37,7 +38,7 @@ def ident(rng, n=0):
 
 
 def enc(ds):
-    return D.dsutils.encode(ds, True, True)
+    return dsref.encode(ds, True, True)
 
 
 def instance(rng, i, sop=CT):
@@ -206,7 +207,7 @@ def run_naction(rng, policy, mid, ctx, outcome, n=3, split='mixed'):
         else:
             w = subs[0].sent[0]
             rep = pydicom.dataset.Dataset()
-            rd = D.dsutils.decode(w.data, True, True)
+            rd = dsref.decode(w.data, True, True)
             got_ok = [(str(i.ReferencedSOPClassUID), str(i.ReferencedSOPInstanceUID)) for i in getattr(rd, 'ReferencedSOPSequence', [])]
             got_bad = [(str(i.ReferencedSOPClassUID), str(i.ReferencedSOPInstanceUID)) for i in getattr(rd, 'FailedSOPSequence', [])]
             if got_ok != [(c, i) for c, i in (ok or [])] or got_bad != [(c, i) for c, i, _ in (bad or [])]:
@@ -410,10 +411,12 @@ def run_get_scu(rng, mid, ctx, plan, handler_outcomes, policy='eager', final=0x0
     tr = [{'ev': 'Req', 'svc': 'get-scu', 'req': {'type': 0x0010, 'ctx': ctx, 'mid': mid, 'cls': GET, 'inst': ''}}]
     items = []
     k = 0
+    nstores = len([it for it in plan if it[0] != 'pending'])
     for it in plan:
         if it[0] == 'pending':
+            # progress as a provider reports it: remaining goes down to 0 - possibly before the final response
             replies.append((S.decode_message(S.response_bytes(0x8010, mid, GET, 0xFF00, extra=[
-                (cmdset.TAG_REMAINING, cmdset.us(3)), (cmdset.TAG_COMPLETED, cmdset.us(k))]), b'', ctx), ctx))
+                (cmdset.TAG_REMAINING, cmdset.us(max(nstores - k, 0))), (cmdset.TAG_COMPLETED, cmdset.us(k))]), b'', ctx), ctx))
         else:
             _, pc, smid, size = it
             inst = '1.2.3.4.%d' % k
@@ -463,10 +466,13 @@ def run_get_scu(rng, mid, ctx, plan, handler_outcomes, policy='eager', final=0x0
 
 # ------------------------------------------------------------------ C-MOVE provider
 
-def run_move_scp(rng, policy, mid, ctx, n, outcomes, known=True):
+def run_move_scp(rng, policy, mid, ctx, n, outcomes, known=True, supplied=None):
     ae = S.ScriptAE()
     insts = [instance(rng, i) for i in range(n)]
     dest = {'aet': 'DEST', 'address': 'dest.example', 'port': 11112}
+    # supplied: the application announces n sub-operations but its iterator yields fewer (nothing, in the extreme)
+    if supplied is not None:
+        insts = insts[:supplied]
     ae.script['move'] = (dest if known else None, n, iter(insts))
     a = S.make_association(ae, policy)
     query = ident(rng)
